@@ -357,7 +357,10 @@ def run(ctx):
             else:
                 n_ = c['nodes'][pos - 1]
                 exp = c['orig'][n_['l0'] - 1:n_['l1']]
-                ctx.violation(f"valid-emitted:{n_['kind']}",
+                # a FUNCTION in the file is regenerated (no conservative handler: known finding), and with it every
+                # VALID node inside it / inside the unit that contains it: such cases are keyed apart
+                infn = ':file-has-function' if re.search(r'^[ \t]*(?:(?:pure|elemental|recursive|integer|real|logical)\b[^\n!]*)?\bfunction\b', m.get('text', ''), re.I | re.M) else ''
+                ctx.violation(f"valid-emitted:{n_['kind']}{infn}",
                               f"{m['origin']}: after {m['op']} of a {m['kind']} in {m['unit']}, the {n_['kind']} at lines {n_['l0']}-{n_['l1']} is "
                               f"still VALID but its original text is not in the conservative output (in order):\n" + '\n'.join(exp[:6]), payload)
     ctx.cover['unmodified_cases'] = n_unmod
